@@ -1,8 +1,66 @@
-(* Proofs/GCRaceProofs.v -- garbage collection is safe against concurrently committing transactions (C06). *)
+(* Proofs/GCRaceProofs.v -- garbage collection is safe against concurrently committing transactions (C06).
+
+   Part 1 is the INTERFACE of the regenerated collector kernels (Gen/GenGCRace.v): the invariant proof uses
+   gen_marker_cutoff / gen_marker_age_ok / gen_marker_action / gen_sweep_cutoff / gen_delete_guard only through
+   these lemmas, which are re-proved on every run against what the translator has just read off
+   garbage_collector.py.  If the source starts treating a marker as abandoned for any other reason than its
+   age against the abandonment timeout, or sweeps with another cutoff than `now - grace`, or deletes a file
+   that is reachable / protected / young, a lemma here (and with it C06) no longer checks. *)
 From Coq Require Import ZArith List Bool Arith Lia.
-Require Import DS.Model.GCRace.
+Require Import DS.Model.GCRaceBase DS.Gen.GenGCRace DS.Model.GCRace.
 Import ListNotations.
 Open Scope Z_scope.
+
+(* ---- interface of the regenerated kernels *)
+
+(* a marker is deleted as abandoned only if it is older than the cutoff ... *)
+Lemma marker_sweep_old c mt : gen_marker_action (gen_marker_age_ok c (Some mt)) = MSweep -> mt < c.
+Proof.
+  unfold gen_marker_action, gen_marker_age_ok. destruct (Z.leb_spec c mt); [discriminate | intros _; assumption].
+Qed.
+
+(* ... and the cutoff lies the whole abandonment timeout before the clock reading *)
+Lemma marker_cutoff_le now timeout : gen_marker_cutoff now timeout <= now - timeout.
+Proof. unfold gen_marker_cutoff. lia. Qed.
+
+(* a marker that cannot be stat'ed keeps protecting; so does one whose deletion fails *)
+Lemma marker_unstatable_protects c : gen_marker_action (gen_marker_age_ok c None) = MProtect.
+Proof. reflexivity. Qed.
+Lemma marker_sweep_failure_protects : gen_sweep_failure_protects = true.
+Proof. reflexivity. Qed.
+
+(* the sweep's cutoff lies the whole grace period before the clock reading *)
+Lemma sweep_cutoff_le now grace : gen_sweep_cutoff now grace <= now - grace.
+Proof. unfold gen_sweep_cutoff. lia. Qed.
+
+(* the deletion guard: not covered (reachable or protected) and older than the cutoff *)
+Lemma delete_guard_spec cov mt c : gen_delete_guard cov mt c = true -> cov = false /\ mt < c.
+Proof.
+  unfold gen_delete_guard. rewrite andb_true_iff, negb_true_iff, Z.ltb_lt. tauto.
+Qed.
+
+Lemma collect_arguments_checked : gen_collect_marker_arg_ok = true /\ gen_collect_sweeps_ok = true.
+Proof. split; reflexivity. Qed.
+
+(* the two kernels composed, as statements about the clock reading, the period and the modification time *)
+Lemma marker_kernel now timeout mt :
+  (gen_marker_action (gen_marker_age_ok (gen_marker_cutoff now timeout) (Some mt)) = MSweep -> mt + timeout < now)
+  /\ gen_marker_action (gen_marker_age_ok (gen_marker_cutoff now timeout) None) = MProtect
+  /\ gen_sweep_failure_protects = true.
+Proof.
+  split; [|split; [apply marker_unstatable_protects | apply marker_sweep_failure_protects]].
+  intro H. apply marker_sweep_old in H. pose proof (marker_cutoff_le now timeout). lia.
+Qed.
+
+Lemma delete_kernel now grace cov mt :
+  gen_delete_guard cov mt (gen_sweep_cutoff now grace) = true -> cov = false /\ mt + grace < now.
+Proof.
+  intro H. apply delete_guard_spec in H. destruct H as [C M]. pose proof (sweep_cutoff_le now grace). split; [exact C | lia].
+Qed.
+
+Local Opaque gen_marker_cutoff gen_marker_age_ok gen_marker_action gen_sweep_cutoff gen_delete_guard.
+
+(* ---- the invariant *)
 
 Definition live (p : tpc) : bool := match p with TWritten | TFlipped | TDone => true | _ => false end.
 Definition marked (p : tpc) : bool := match p with TMarked | TWritten | TFlipped => true | _ => false end.
@@ -13,107 +71,135 @@ Definition covered (w : gworld) (t : tid) : Prop :=
   \/ (g_gpc w = GGotMarks /\ g_ref w t = true)
   \/ ((g_gpc w = GGotReach \/ g_gpc w = GListed) /\ g_reach w t = true).
 
+(* Everything is stated for files whose marker no run has treated as abandoned (g_swept = false): a
+   transaction that outlives the abandonment timeout has given up its protection, by design. *)
 Record GInv (w : gworld) : Prop := {
-  GI_mark : forall t, marked (g_tpc w t) = true -> g_marker w t = true;
+  GI_mark : forall t, marked (g_tpc w t) = true -> g_swept w t = false -> g_marker w t = true;
   GI_ref : forall t, g_ref w t = committed (g_tpc w t);
-  GI_pres : forall t, g_present w t = live (g_tpc w t);
-  GI_mtime : forall t, live (g_tpc w t) = true -> g_mtime w t <= g_now w;
-  GI_cov : g_gpc w <> GIdle -> g_start w <= g_now w /\ forall t, live (g_tpc w t) = true -> covered w t;
+  GI_pres : forall t, live (g_tpc w t) = true -> g_swept w t = false -> g_present w t = true;
+  GI_only : forall t, g_present w t = true -> live (g_tpc w t) = true \/ g_tpc w t = TOrphaned;
+  GI_cov : g_gpc w <> GIdle -> g_start w <= g_now w /\ forall t, live (g_tpc w t) = true -> g_swept w t = false -> covered w t;
   GI_cut : g_gpc w = GListed -> g_cutoff w < g_start w;
-  GI_del : g_deleted w = [] }.
+  GI_del : forall t, In t (g_deleted w) -> g_swept w t = true \/ g_tpc w t = TOrphaned }.
 
 Lemma updf_same {A} t (v : A) f : updf t v f t = v.
 Proof. unfold updf. rewrite Nat.eqb_refl. reflexivity. Qed.
 Lemma updf_other {A} t u (v : A) f : u <> t -> updf t v f u = f u.
 Proof. unfold updf. intro H. destruct (Nat.eqb_spec u t); [contradiction|reflexivity]. Qed.
 
-Ltac tx_split u t := destruct (Nat.eq_dec u t) as [->|NE]; [rewrite ?updf_same | rewrite ?updf_other by exact NE].
+Ltac tx_split u t := destruct (Nat.eq_dec u t) as [->|NE]; [rewrite ?updf_same in * | rewrite ?updf_other in * by exact NE].
+
+(* a transaction step on file t that keeps the collector's fields: the invariant's clauses for the other files *)
+Ltac other_cov C u NE :=
+  match goal with L : live _ = true, SW : _ = false |- _ =>
+    destruct (C u L SW) as [A|[A|[A|A]]]; unfold covered; simpl; rewrite ?updf_other by exact NE; auto
+  end.
 
 Lemma gstep_inv w e w' : GInv w -> gstep w e = Some w' -> GInv w'.
 Proof.
-  intros I H. destruct e as [dt|t|t|t|t|t| | |grace|t|n| ]; simpl in H.
+  intros I H. destruct e as [dt|t|t|t|t|t|t|timeout|t| |grace|t|n| ]; simpl in H.
   - (* Tick *)
     destruct (Z.leb_spec 0 dt); [|discriminate]. inversion H; subst w'; clear H.
     constructor; simpl; try apply I.
-    + intros t L. pose proof (GI_mtime w I t L). lia.
-    + intro NI. destruct (GI_cov w I NI) as [S C]. split; [lia|]. intros t L. destruct (C t L) as [A|[A|[A|A]]]; unfold covered; simpl; auto.
+    intro NI. destruct (GI_cov w I NI) as [S C]. split; [lia|]. intros t L SW. destruct (C t L SW) as [A|[A|[A|A]]]; unfold covered; simpl; auto.
   - (* TMarkW *)
     destruct (g_tpc w t) eqn:PC; try discriminate. inversion H; subst w'; clear H. unfold with_tx.
     constructor; simpl; try apply I.
-    + intros u M. tx_split u t; [reflexivity | apply (GI_mark w I u)]; rewrite ?updf_other in M by exact NE; exact M.
+    + intros u M SW. tx_split u t; [reflexivity | apply (GI_mark w I u M SW)].
     + intro u. tx_split u t; [reflexivity | apply (GI_ref w I u)].
-    + intro u. tx_split u t; [reflexivity | apply (GI_pres w I u)].
-    + intros u L. tx_split u t; [rewrite updf_same in L; discriminate|]. rewrite updf_other in L by exact NE. apply (GI_mtime w I u L).
-    + intro NI. destruct (GI_cov w I NI) as [S C]. split; [exact S|]. intros u L.
-      tx_split u t; [rewrite updf_same in L; discriminate|]. rewrite updf_other in L by exact NE.
-      destruct (C u L) as [A|[A|[A|A]]]; unfold covered; simpl; rewrite ?updf_other by exact NE; auto.
-  - (* TDataW: the file is written now *)
+    + intros u L SW. tx_split u t; [discriminate | apply (GI_pres w I u L SW)].
+    + intros u P. tx_split u t; [discriminate | apply (GI_only w I u P)].
+    + intro NI. destruct (GI_cov w I NI) as [S C]. split; [exact S|]. intros u L SW.
+      tx_split u t; [discriminate|]. other_cov C u NE.
+    + intros u D. destruct (GI_del w I u D) as [A|A]; [left; exact A|]. tx_split u t; [congruence | right; exact A].
+  - (* TDataW: the file is in place now *)
     destruct (g_tpc w t) eqn:PC; try discriminate. inversion H; subst w'; clear H. unfold with_tx.
     constructor; simpl; try apply I.
-    + intros u M. tx_split u t; [reflexivity | apply (GI_mark w I u)]; rewrite ?updf_other in M by exact NE; exact M.
+    + intros u M SW. tx_split u t; [apply (GI_mark w I t); [rewrite PC; reflexivity | exact SW] | apply (GI_mark w I u M SW)].
     + intro u. tx_split u t; [reflexivity | apply (GI_ref w I u)].
-    + intro u. tx_split u t; [reflexivity | apply (GI_pres w I u)].
-    + intros u L. tx_split u t; [lia|]. rewrite updf_other in L by exact NE. apply (GI_mtime w I u L).
-    + intro NI. destruct (GI_cov w I NI) as [S C]. split; [exact S|]. intros u L.
+    + intros u L SW. tx_split u t; [reflexivity | apply (GI_pres w I u L SW)].
+    + intros u P. tx_split u t; [left; reflexivity | apply (GI_only w I u P)].
+    + intro NI. destruct (GI_cov w I NI) as [S C]. split; [exact S|]. intros u L SW.
       tx_split u t.
       * right. left. simpl. rewrite updf_same. exact S.
-      * rewrite updf_other in L by exact NE.
-        destruct (C u L) as [A|[A|[A|A]]]; unfold covered; simpl; rewrite ?updf_other by exact NE; auto.
+      * other_cov C u NE.
+    + intros u D. destruct (GI_del w I u D) as [A|A]; [left; exact A|]. tx_split u t; [congruence | right; exact A].
   - (* TFlip *)
     destruct (g_tpc w t) eqn:PC; try discriminate. inversion H; subst w'; clear H. unfold with_tx.
-    pose proof (GI_pres w I t) as Pt. rewrite PC in Pt. simpl in Pt.
+    assert (Lt : live (g_tpc w t) = true) by (rewrite PC; reflexivity).
     constructor; simpl; try apply I.
-    + intros u M. tx_split u t; [reflexivity | apply (GI_mark w I u)]; rewrite ?updf_other in M by exact NE; exact M.
+    + intros u M SW. tx_split u t; [apply (GI_mark w I t); [rewrite PC; reflexivity | exact SW] | apply (GI_mark w I u M SW)].
     + intro u. tx_split u t; [reflexivity | apply (GI_ref w I u)].
-    + intro u. tx_split u t; [exact Pt | apply (GI_pres w I u)].
-    + intros u L. tx_split u t; [apply (GI_mtime w I t); rewrite PC; reflexivity|]. rewrite updf_other in L by exact NE. apply (GI_mtime w I u L).
-    + intro NI. destruct (GI_cov w I NI) as [S C]. split; [exact S|]. intros u L.
+    + intros u L SW. tx_split u t; [apply (GI_pres w I t Lt SW) | apply (GI_pres w I u L SW)].
+    + intros u P. tx_split u t; [left; reflexivity | apply (GI_only w I u P)].
+    + intro NI. destruct (GI_cov w I NI) as [S C]. split; [exact S|]. intros u L SW.
       tx_split u t.
-      * assert (Lt : live (g_tpc w t) = true) by (rewrite PC; reflexivity).
-        destruct (C t Lt) as [A|[A|[[A1 A2]|A]]]; unfold covered; simpl; rewrite ?updf_same; auto.
-      * rewrite updf_other in L by exact NE.
-        destruct (C u L) as [A|[A|[A|A]]]; unfold covered; simpl; rewrite ?updf_other by exact NE; auto.
+      * destruct (C t Lt SW) as [A|[A|[[A1 A2]|A]]]; unfold covered; simpl; rewrite ?updf_same; auto.
+      * other_cov C u NE.
+    + intros u D. destruct (GI_del w I u D) as [A|A]; [left; exact A|]. tx_split u t; [congruence | right; exact A].
   - (* TMarkD *)
     destruct (g_tpc w t) eqn:PC; try discriminate. inversion H; subst w'; clear H. unfold with_tx.
-    pose proof (GI_pres w I t) as Pt. rewrite PC in Pt. simpl in Pt.
+    assert (Lt : live (g_tpc w t) = true) by (rewrite PC; reflexivity).
     constructor; simpl; try apply I.
-    + intros u M. tx_split u t; [rewrite updf_same in M; discriminate|]. rewrite updf_other in M by exact NE. apply (GI_mark w I u M).
+    + intros u M SW. tx_split u t; [discriminate | apply (GI_mark w I u M SW)].
     + intro u. tx_split u t; [reflexivity | apply (GI_ref w I u)].
-    + intro u. tx_split u t; [exact Pt | apply (GI_pres w I u)].
-    + intros u L. tx_split u t; [apply (GI_mtime w I t); rewrite PC; reflexivity|]. rewrite updf_other in L by exact NE. apply (GI_mtime w I u L).
-    + intro NI. destruct (GI_cov w I NI) as [S C]. split; [exact S|]. intros u L.
+    + intros u L SW. tx_split u t; [apply (GI_pres w I t Lt SW) | apply (GI_pres w I u L SW)].
+    + intros u P. tx_split u t; [left; reflexivity | apply (GI_only w I u P)].
+    + intro NI. destruct (GI_cov w I NI) as [S C]. split; [exact S|]. intros u L SW.
       tx_split u t.
-      * assert (Lt : live (g_tpc w t) = true) by (rewrite PC; reflexivity).
-        destruct (C t Lt) as [A|[A|[[A1 A2]|A]]]; unfold covered; simpl; rewrite ?updf_same; auto.
-      * rewrite updf_other in L by exact NE.
-        destruct (C u L) as [A|[A|[A|A]]]; unfold covered; simpl; rewrite ?updf_other by exact NE; auto.
+      * destruct (C t Lt SW) as [A|[A|[[A1 A2]|A]]]; unfold covered; simpl; rewrite ?updf_same; auto.
+      * other_cov C u NE.
+    + intros u D. destruct (GI_del w I u D) as [A|A]; [left; exact A|]. tx_split u t; [congruence | right; exact A].
   - (* TRollback *)
-    assert (H' : Some (with_tx w t TRolled (g_mtime w t) false false false) = Some w' /\ (g_tpc w t = TMarked \/ g_tpc w t = TWritten)).
+    assert (H' : Some (with_tx w t TRolled (g_mtime w t) false false false (g_mkmtime w t)) = Some w' /\ (g_tpc w t = TMarked \/ g_tpc w t = TWritten)).
     { destruct (g_tpc w t); try discriminate; auto. }
-    destruct H' as [H' _]. inversion H'; subst w'; clear H H'. unfold with_tx.
+    destruct H' as [H' PC]. inversion H'; subst w'; clear H H'. unfold with_tx.
     constructor; simpl; try apply I.
-    + intros u M. tx_split u t; [rewrite updf_same in M; discriminate|]. rewrite updf_other in M by exact NE. apply (GI_mark w I u M).
+    + intros u M SW. tx_split u t; [discriminate | apply (GI_mark w I u M SW)].
     + intro u. tx_split u t; [reflexivity | apply (GI_ref w I u)].
-    + intro u. tx_split u t; [reflexivity | apply (GI_pres w I u)].
-    + intros u L. tx_split u t; [rewrite updf_same in L; discriminate|]. rewrite updf_other in L by exact NE. apply (GI_mtime w I u L).
-    + intro NI. destruct (GI_cov w I NI) as [S C]. split; [exact S|]. intros u L.
-      tx_split u t; [rewrite updf_same in L; discriminate|]. rewrite updf_other in L by exact NE.
-      destruct (C u L) as [A|[A|[A|A]]]; unfold covered; simpl; rewrite ?updf_other by exact NE; auto.
-  - (* GMarks: the run starts by loading the protection markers *)
-    destruct (g_gpc w) eqn:GP; try discriminate. inversion H; subst w'; clear H.
+    + intros u L SW. tx_split u t; [discriminate | apply (GI_pres w I u L SW)].
+    + intros u P. tx_split u t; [discriminate | apply (GI_only w I u P)].
+    + intro NI. destruct (GI_cov w I NI) as [S C]. split; [exact S|]. intros u L SW.
+      tx_split u t; [discriminate|]. other_cov C u NE.
+    + intros u D. destruct (GI_del w I u D) as [A|A]; [left; exact A|]. tx_split u t; [destruct PC; congruence | right; exact A].
+  - (* TAbandon: the owner drops the marker of a file it will never publish *)
+    destruct (g_tpc w t) eqn:PC; try discriminate. inversion H; subst w'; clear H. unfold with_tx.
     constructor; simpl; try apply I.
-    + intros _. split; [lia|]. intros t L. unfold covered. simpl.
+    + intros u M SW. tx_split u t; [discriminate | apply (GI_mark w I u M SW)].
+    + intro u. tx_split u t; [reflexivity | apply (GI_ref w I u)].
+    + intros u L SW. tx_split u t; [discriminate | apply (GI_pres w I u L SW)].
+    + intros u P. tx_split u t; [right; reflexivity | apply (GI_only w I u P)].
+    + intro NI. destruct (GI_cov w I NI) as [S C]. split; [exact S|]. intros u L SW.
+      tx_split u t; [discriminate|]. other_cov C u NE.
+    + intros u D. tx_split u t; [right; reflexivity | apply (GI_del w I u D)].
+  - (* GMarks: the run starts by loading the protection markers *)
+    destruct (g_gpc w) eqn:GP; try discriminate. inversion H; subst w'; clear H. unfold with_gc.
+    constructor; simpl; try apply I.
+    + intros _. split; [lia|]. intros t L SW. unfold covered. simpl.
       destruct (g_tpc w t) eqn:PC; try discriminate.
-      * left. apply (GI_mark w I t). rewrite PC. reflexivity.
-      * left. apply (GI_mark w I t). rewrite PC. reflexivity.
+      * left. apply (GI_mark w I t); [rewrite PC; reflexivity | exact SW].
+      * left. apply (GI_mark w I t); [rewrite PC; reflexivity | exact SW].
       * right. right. left. split; [reflexivity|]. rewrite (GI_ref w I t), PC. reflexivity.
     + discriminate.
-  - (* GMeta *)
-    destruct (g_gpc w) eqn:GP; try discriminate. inversion H; subst w'; clear H.
+  - (* GSweep: a marker older than the abandonment timeout is deleted; its file is on its own from now on *)
+    destruct (g_gpc w) eqn:GP; try discriminate.
+    destruct (g_prot w t) eqn:PT; [|discriminate].
+    destruct (gen_marker_action _) eqn:ACT; [discriminate|]. inversion H; subst w'; clear H.
     assert (NI : g_gpc w <> GIdle) by (rewrite GP; discriminate).
     destruct (GI_cov w I NI) as [S C].
     constructor; simpl; try apply I.
-    + intros _. split; [exact S|]. intros t L. destruct (C t L) as [A|[A|[[A1 A2]|[[A1|A1] A2]]]]; unfold covered; simpl; auto.
+    + intros u M SW. tx_split u t; [discriminate | apply (GI_mark w I u M SW)].
+    + intros u L SW. tx_split u t; [discriminate | apply (GI_pres w I u L SW)].
+    + intros _. split; [exact S|]. intros u L SW. tx_split u t; [discriminate|].
+      destruct (C u L SW) as [A|[A|[A|A]]]; rewrite ?GP in A; unfold covered; simpl; rewrite ?updf_other by exact NE; auto.
+    + discriminate.
+    + intros u D. destruct (GI_del w I u D) as [A|A]; [left|right; exact A]. tx_split u t; [reflexivity | exact A].
+  - (* GMeta *)
+    destruct (g_gpc w) eqn:GP; try discriminate. inversion H; subst w'; clear H. unfold with_gc.
+    assert (NI : g_gpc w <> GIdle) by (rewrite GP; discriminate).
+    destruct (GI_cov w I NI) as [S C].
+    constructor; simpl; try apply I.
+    + intros _. split; [exact S|]. intros t L SW. destruct (C t L SW) as [A|[A|[[A1 A2]|[[A1|A1] A2]]]]; unfold covered; simpl; auto.
       * right. right. right. split; [left; reflexivity | exact A2].
       * rewrite GP in A1. discriminate.
       * rewrite GP in A1. discriminate.
@@ -122,41 +208,51 @@ Proof.
     assert (NI : g_gpc w <> GIdle) by (destruct (g_gpc w); try discriminate).
     destruct (GI_cov w I NI) as [S C].
     assert (H' : (g_gpc w = GGotReach \/ g_gpc w = GListed) /\
-                 (if g_now w - g_start w <? grace then Some {| g_now := g_now w; g_tpc := g_tpc w; g_mtime := g_mtime w; g_present := g_present w;
-                   g_marker := g_marker w; g_ref := g_ref w; g_orphans := g_orphans w; g_gpc := GListed; g_prot := g_prot w; g_reach := g_reach w;
-                   g_start := g_start w; g_cutoff := g_now w - grace; g_listing := g_present w; g_deleted := g_deleted w |} else None) = Some w').
+                 (if g_now w - g_start w <? grace
+                  then Some (with_gc w GListed (g_prot w) (g_reach w) (g_start w) (gen_sweep_cutoff (g_now w) grace) (g_present w) (g_mcut w) (g_orphans w))
+                  else None) = Some w').
     { destruct (g_gpc w); try discriminate; auto. }
     destruct H' as [GP H']. destruct (Z.ltb_spec (g_now w - g_start w) grace); [|discriminate]. inversion H'; subst w'; clear H H'.
+    unfold with_gc.
     constructor; simpl; try apply I.
-    + intros _. split; [exact S|]. intros t L. destruct (C t L) as [A|[A|[[A1 A2]|[A1 A2]]]]; unfold covered; simpl; auto.
+    + intros _. split; [exact S|]. intros t L SW. destruct (C t L SW) as [A|[A|[[A1 A2]|[A1 A2]]]]; unfold covered; simpl; auto.
       * destruct GP as [G|G]; rewrite G in A1; discriminate.
       * right. right. right. split; [right; reflexivity | exact A2].
-    + intros _. lia.
-  - (* GDel: never enabled for a file a live transaction owns *)
+    + intros _. pose proof (sweep_cutoff_le (g_now w) grace). lia.
+  - (* GDel: never enabled for a file a live transaction owns, unless its marker was abandoned *)
     destruct (g_gpc w) eqn:GP; try discriminate.
-    destruct (g_listing w t && negb (g_reach w t) && negb (g_prot w t) && (g_mtime w t <? g_cutoff w) && g_present w t) eqn:Guard; [|discriminate].
-    exfalso. apply andb_true_iff in Guard. destruct Guard as [Guard Pr].
-    apply andb_true_iff in Guard. destruct Guard as [Guard Mt]. apply andb_true_iff in Guard. destruct Guard as [Guard Np].
-    apply andb_true_iff in Guard. destruct Guard as [_ Nr]. apply negb_true_iff in Np, Nr. apply Z.ltb_lt in Mt.
-    rewrite (GI_pres w I t) in Pr.
+    destruct (g_listing w t && gen_delete_guard (g_reach w t || g_prot w t) (g_mtime w t) (g_cutoff w) && g_present w t) eqn:Guard; [|discriminate].
+    inversion H; subst w'; clear H.
+    apply andb_true_iff in Guard. destruct Guard as [Guard Pr].
+    apply andb_true_iff in Guard. destruct Guard as [_ DG]. apply delete_guard_spec in DG. destruct DG as [Cov Mt].
+    apply orb_false_iff in Cov. destruct Cov as [Nr Np].
     assert (NI : g_gpc w <> GIdle) by (rewrite GP; discriminate).
     destruct (GI_cov w I NI) as [S C]. pose proof (GI_cut w I GP) as Cut.
-    destruct (C t Pr) as [A|[A|[[A1 A2]|[A1 A2]]]]; try congruence; try lia.
+    assert (OK : g_swept w t = true \/ g_tpc w t = TOrphaned).
+    { destruct (GI_only w I t Pr) as [L|O]; [|right; exact O].
+      destruct (g_swept w t) eqn:SW; [left; reflexivity|]. exfalso.
+      destruct (C t L SW) as [A|[A|[[A1 A2]|[A1 A2]]]]; try congruence; try lia. }
+    constructor; simpl; try apply I.
+    + intros u L SW. tx_split u t; [destruct OK as [A|A]; [congruence | rewrite A in L; discriminate] | apply (GI_pres w I u L SW)].
+    + intros u P. tx_split u t; [discriminate | apply (GI_only w I u P)].
+    + intros _. split; [exact S|]. intros u L SW. destruct (C u L SW) as [A|[A|[[A1 A2]|[A1 A2]]]]; unfold covered; simpl; auto.
+      * rewrite GP in A1. discriminate.
+      * right. right. right. split; [right; reflexivity | exact A2].
+    + intros _. exact Cut.
+    + intros u [E|D]; [subst u; exact OK | apply (GI_del w I u D)].
   - (* GDelOrphan *)
     destruct (g_gpc w) eqn:GP; try discriminate.
-    destruct (existsb _ (g_orphans w)); [|discriminate]. inversion H; subst w'; clear H.
+    destruct (existsb _ (g_orphans w)); [|discriminate]. inversion H; subst w'; clear H. unfold with_gc.
     constructor; simpl; try apply I.
     + intros _. assert (NI : g_gpc w <> GIdle) by (rewrite GP; discriminate).
-      destruct (GI_cov w I NI) as [S C]. split; [exact S|]. intros t L. destruct (C t L) as [A|[A|[[A1 A2]|[A1 A2]]]]; unfold covered; simpl; auto.
+      destruct (GI_cov w I NI) as [S C]. split; [exact S|]. intros t L SW. destruct (C t L SW) as [A|[A|[[A1 A2]|[A1 A2]]]]; unfold covered; simpl; auto.
       * rewrite GP in A1. discriminate.
       * right. right. right. split; [right; reflexivity | exact A2].
     + intros _. apply (GI_cut w I GP).
   - (* GEnd *)
-    assert (H' : Some {| g_now := g_now w; g_tpc := g_tpc w; g_mtime := g_mtime w; g_present := g_present w; g_marker := g_marker w;
-                   g_ref := g_ref w; g_orphans := g_orphans w; g_gpc := GIdle; g_prot := g_prot w; g_reach := g_reach w;
-                   g_start := g_start w; g_cutoff := g_cutoff w; g_listing := g_listing w; g_deleted := g_deleted w |} = Some w').
+    assert (H' : Some (with_gc w GIdle (g_prot w) (g_reach w) (g_start w) (g_cutoff w) (g_listing w) (g_mcut w) (g_orphans w)) = Some w').
     { destruct (g_gpc w); try discriminate; auto. }
-    inversion H'; subst w'; clear H H'.
+    inversion H'; subst w'; clear H H'. unfold with_gc.
     constructor; simpl; try apply I.
     + intro X. contradiction.
     + discriminate.
@@ -176,17 +272,136 @@ Proof.
 Qed.
 
 (* C06: for every interleaving of collection runs (each lasting less than its grace period) with
-   transactions that write, commit or roll back -- including transactions whose files are older than
-   the grace period when they commit -- every file referenced by the committed table, and every file
-   of a transaction still in flight, exists; the collector deleted no transaction file. *)
+   transactions that write (however slowly: any time may pass between a marker and its file), commit,
+   retry (abandoning the manifests of the lost attempt) or roll back -- including transactions whose files
+   are older than the grace period when they commit -- every file referenced by the committed table, and
+   every file of a transaction still in flight, exists, and the collector deleted only files their owner
+   had abandoned; for every file whose marker no run treated as older than the abandonment timeout. *)
 Theorem gc_race_safe orph evs :
   let w := grun (ginit orph) evs in
-  (forall t, g_ref w t = true -> g_present w t = true)
-  /\ (forall t, g_tpc w t = TWritten -> g_present w t = true)
-  /\ g_deleted w = [].
+  forall f, g_swept w f = false ->
+    (g_ref w f = true -> g_present w f = true)
+    /\ (g_tpc w f = TWritten -> g_present w f = true)
+    /\ (In f (g_deleted w) -> g_tpc w f = TOrphaned).
 Proof.
-  intro w. assert (I : GInv w) by (apply grun_inv; apply ginit_inv).
-  split; [|split; [|apply I]].
-  - intros t R. rewrite (GI_ref w I t) in R. rewrite (GI_pres w I t). destruct (g_tpc w t); try discriminate; reflexivity.
-  - intros t P. rewrite (GI_pres w I t), P. reflexivity.
+  intros w f SW. assert (I : GInv w) by (apply grun_inv; apply ginit_inv).
+  split; [|split].
+  - intros R. rewrite (GI_ref w I f) in R. apply (GI_pres w I f); [|exact SW]. destruct (g_tpc w f); try discriminate; reflexivity.
+  - intros P. apply (GI_pres w I f); [rewrite P; reflexivity | exact SW].
+  - intros D. destruct (GI_del w I f D) as [A|A]; [congruence | exact A].
+Qed.
+
+(* ---- a marker is treated as abandoned only when it is older than the abandonment timeout *)
+
+Record SInv (T : Z) (w : gworld) : Prop := {
+  SI_new : forall t, g_tpc w t = TNew -> g_marker w t = false /\ g_prot w t = false /\ g_swept w t = false;
+  SI_run : g_gpc w <> GIdle -> g_start w <= g_now w /\ g_mcut w <= g_start w - T;
+  SI_old : forall t, g_swept w t = true -> g_mkmtime w t + T < g_now w }.
+
+Definition timeout_ok (T : Z) (e : gevent) : Prop := match e with GMarks timeout => T <= timeout | _ => True end.
+
+Lemma gstep_sinv T w e w' : SInv T w -> timeout_ok T e -> gstep w e = Some w' -> SInv T w'.
+Proof.
+  intros I TO H. destruct e as [dt|t|t|t|t|t|t|timeout|t| |grace|t|n| ]; simpl in H.
+  - destruct (Z.leb_spec 0 dt); [|discriminate]. inversion H; subst w'; clear H.
+    constructor; simpl; try apply I.
+    + intro NI. destruct (SI_run T w I NI). split; lia.
+    + intros t SW. pose proof (SI_old T w I t SW). lia.
+  - destruct (g_tpc w t) eqn:PC; try discriminate. inversion H; subst w'; clear H. unfold with_tx.
+    destruct (SI_new T w I t PC) as [_ [_ NS]].
+    constructor; simpl; try apply I.
+    + intros u N. tx_split u t; [discriminate | apply (SI_new T w I u N)].
+    + intros u SW. tx_split u t; [congruence | apply (SI_old T w I u SW)].
+  - destruct (g_tpc w t) eqn:PC; try discriminate. inversion H; subst w'; clear H. unfold with_tx.
+    constructor; simpl; try apply I.
+    + intros u N. tx_split u t; [discriminate | apply (SI_new T w I u N)].
+    + intros u SW. tx_split u t; apply (SI_old T w I _ SW).
+  - destruct (g_tpc w t) eqn:PC; try discriminate. inversion H; subst w'; clear H. unfold with_tx.
+    constructor; simpl; try apply I.
+    + intros u N. tx_split u t; [discriminate | apply (SI_new T w I u N)].
+    + intros u SW. tx_split u t; apply (SI_old T w I _ SW).
+  - destruct (g_tpc w t) eqn:PC; try discriminate. inversion H; subst w'; clear H. unfold with_tx.
+    constructor; simpl; try apply I.
+    + intros u N. tx_split u t; [discriminate | apply (SI_new T w I u N)].
+    + intros u SW. tx_split u t; apply (SI_old T w I _ SW).
+  - assert (H' : Some (with_tx w t TRolled (g_mtime w t) false false false (g_mkmtime w t)) = Some w').
+    { destruct (g_tpc w t); try discriminate; auto. }
+    inversion H'; subst w'; clear H H'. unfold with_tx.
+    constructor; simpl; try apply I.
+    + intros u N. tx_split u t; [discriminate | apply (SI_new T w I u N)].
+    + intros u SW. tx_split u t; apply (SI_old T w I _ SW).
+  - destruct (g_tpc w t) eqn:PC; try discriminate. inversion H; subst w'; clear H. unfold with_tx.
+    constructor; simpl; try apply I.
+    + intros u N. tx_split u t; [discriminate | apply (SI_new T w I u N)].
+    + intros u SW. tx_split u t; apply (SI_old T w I _ SW).
+  - destruct (g_gpc w) eqn:GP; try discriminate. inversion H; subst w'; clear H. unfold with_gc.
+    constructor; simpl; try apply I.
+    + intros u N. destruct (SI_new T w I u N) as [A [_ B]]. auto.
+    + intros _. simpl in TO. pose proof (marker_cutoff_le (g_now w) timeout). split; lia.
+  - destruct (g_gpc w) eqn:GP; try discriminate.
+    destruct (g_prot w t) eqn:PT; [|discriminate].
+    destruct (gen_marker_action _) eqn:ACT; [discriminate|]. inversion H; subst w'; clear H.
+    apply marker_sweep_old in ACT.
+    assert (NI : g_gpc w <> GIdle) by (rewrite GP; discriminate).
+    destruct (SI_run T w I NI) as [S M].
+    constructor; simpl; try apply I.
+    + intros u N. tx_split u t; [destruct (SI_new T w I t N) as [_ [A _]]; congruence | apply (SI_new T w I u N)].
+    + intros _. split; assumption.
+    + intros u SW. tx_split u t; [lia | apply (SI_old T w I u SW)].
+  - destruct (g_gpc w) eqn:GP; try discriminate. inversion H; subst w'; clear H. unfold with_gc.
+    assert (NI : g_gpc w <> GIdle) by (rewrite GP; discriminate).
+    constructor; simpl; try apply I. intros _. apply (SI_run T w I NI).
+  - assert (NI : g_gpc w <> GIdle) by (destruct (g_gpc w); try discriminate).
+    assert (H' : (if g_now w - g_start w <? grace
+                  then Some (with_gc w GListed (g_prot w) (g_reach w) (g_start w) (gen_sweep_cutoff (g_now w) grace) (g_present w) (g_mcut w) (g_orphans w))
+                  else None) = Some w').
+    { destruct (g_gpc w); try discriminate; auto. }
+    destruct (g_now w - g_start w <? grace); [|discriminate]. inversion H'; subst w'; clear H H'. unfold with_gc.
+    constructor; simpl; try apply I. intros _. apply (SI_run T w I NI).
+  - destruct (g_gpc w) eqn:GP; try discriminate.
+    destruct (_ && _ && _); [|discriminate]. inversion H; subst w'; clear H.
+    assert (NI : g_gpc w <> GIdle) by (rewrite GP; discriminate).
+    constructor; simpl; try apply I. intros _. apply (SI_run T w I NI).
+  - destruct (g_gpc w) eqn:GP; try discriminate.
+    destruct (existsb _ (g_orphans w)); [|discriminate]. inversion H; subst w'; clear H. unfold with_gc.
+    assert (NI : g_gpc w <> GIdle) by (rewrite GP; discriminate).
+    constructor; simpl; try apply I. intros _. apply (SI_run T w I NI).
+  - assert (H' : Some (with_gc w GIdle (g_prot w) (g_reach w) (g_start w) (g_cutoff w) (g_listing w) (g_mcut w) (g_orphans w)) = Some w').
+    { destruct (g_gpc w); try discriminate; auto. }
+    inversion H'; subst w'; clear H H'. unfold with_gc.
+    constructor; simpl; try apply I. intro X. contradiction.
+Qed.
+
+Lemma ginit_sinv T orph : SInv T (ginit orph).
+Proof.
+  constructor; simpl; auto; try discriminate. intro X. contradiction.
+Qed.
+
+Lemma grun_sinv T w evs : SInv T w -> Forall (timeout_ok T) evs -> SInv T (grun w evs).
+Proof.
+  revert w. induction evs as [|e l IH]; intros w I F; [exact I|].
+  inversion F as [|x y TO F']; subst.
+  change (SInv T (grun (gstep_skip w e) l)). apply IH; [|exact F']. unfold gstep_skip.
+  destruct (gstep w e) eqn:St; [eapply gstep_sinv; eauto | exact I].
+Qed.
+
+(* For every interleaving whose collection runs all use an abandonment timeout of at least T: a file whose
+   marker some run deleted as abandoned had a marker older than T -- its transaction was in flight for
+   longer than T.  (So no marker of a transaction shorter than the abandonment timeout is ever swept,
+   however long the write of its file takes and whatever the grace period is.) *)
+Theorem swept_only_abandoned orph evs T :
+  Forall (timeout_ok T) evs ->
+  let w := grun (ginit orph) evs in
+  forall f, g_swept w f = true -> g_mkmtime w f + T < g_now w.
+Proof.
+  intros F w f SW. apply (SI_old T w); [|exact SW]. apply grun_sinv; [apply ginit_sinv | exact F].
+Qed.
+
+(* ... and until then the marker of a file in flight is in place, whatever the collector does: *)
+Theorem unswept_marker_kept orph evs :
+  let w := grun (ginit orph) evs in
+  forall f, g_swept w f = false -> (g_tpc w f = TMarked \/ g_tpc w f = TWritten \/ g_tpc w f = TFlipped) -> g_marker w f = true.
+Proof.
+  intros w f SW P. assert (I : GInv w) by (apply grun_inv; apply ginit_inv).
+  apply (GI_mark w I f); [|exact SW]. destruct P as [P|[P|P]]; rewrite P; reflexivity.
 Qed.
